@@ -22,7 +22,7 @@ func init() {
 			"advertised subsets of {a,b,c,sasl,x} (32) x reply {ACK, NAK, ACK then later ACK of '-cap'} x SASL outcome {903, 904, 908}; plus PRNG sets of 50..300 capabilities that force the request to be split over several lines. " +
 			"A trace automaton over the wire transcript and SupportsCapability/HasCapability at sync markers checks: the union of CAP REQ arguments equals wanted-and-advertised with no capability twice and no REQ when it is empty, " +
 			"HasCapability equals 'latest ACK enabled it', a CAP END exists at quiescence after NAK / ACK not starting SASL / empty intersection / 903 / 904 / 908, no AUTHENTICATE before the server ACKed sasl, credentials only after the server's " +
-			"'AUTHENTICATE +', payload = base64 of what the mechanism prescribes. Every fifth SASL case drops the link right after the mechanism line and repeats the whole negotiation on the same client against the same server; every other non-SASL case with SASL configured gets an unasked 'AUTHENTICATE +' (no data may follow); every fourth case ends with a second CAP LS that advertises more (the answering request must be wanted-and-advertised-so-far). A CAP END is required after every reply that does not start SASL (each line of a split request, a later ACK of '-cap') and after the outcome line. Every tenth case reconnects inside a DISCONNECTED handler that stays busy until the new negotiation is over; the configured list is a prefix of a longer array that must stay untouched. A later request naming a held capability is NAKed and must be answered with CAP END; every other 908 comes without a prompt before it. distinct_nontrivial = distinct (|wanted|, sasl kind, |advertised|, sasl advertised, reply, outcome) cells.",
+			"'AUTHENTICATE +', payload = base64 of what the mechanism prescribes. Every fifth SASL case drops the link right after the mechanism line and repeats the whole negotiation on the same client against the same server; every other non-SASL case with SASL configured gets an unasked 'AUTHENTICATE +' (no data may follow); every fourth case ends with a second CAP LS that advertises more (the answering request must be wanted-and-advertised-so-far). A CAP END is required after every reply that does not start SASL (each line of a split request, a later ACK of '-cap') and after the outcome line. Every tenth case reconnects inside a DISCONNECTED handler that stays busy until the new negotiation is over; the configured list is a prefix of a longer array that must stay untouched. A later request naming a held capability is NAKed and must be answered with CAP END; every other 908 comes without a prompt before it. In a quarter of the cases three application goroutines keep calling HasCapability / SupportsCapability while the negotiation runs. y- batches: the same against the schedule-perturbed copy. distinct_nontrivial = distinct (|wanted|, sasl kind, |advertised|, sasl advertised, reply, outcome) cells.",
 		Assumptions: []string{"advertisements accumulating across reconnects are outside the stated quantifier: a repeated negotiation always meets the same advertised set", "quiescence = a PING/PONG round trip after the server's last line"},
 		Plan: func(tier string, seed int64) []Batch {
 			bs := splitBatches("exh", 8, true, 2, map[string]string{"mode": "exh"})
